@@ -1425,8 +1425,9 @@ static void op_values (V &v, const Op &op, OpResult &res, Bool<true>)
 #if ! CFG_VECTOR
   else if (! std::strcmp (nm, "erase_val"))
     {
+      const Elem needle = make_elem (static_cast<int> (op.a[0]));     // harness-owned, outlives the logged call
       g_logging = true;
-      res.ret = static_cast<long> (erase (v, make_elem (static_cast<int> (op.a[0]))));
+      res.ret = static_cast<long> (erase (v, needle));
       g_logging = false;
     }
   else if (! std::strcmp (nm, "erase_if"))
